@@ -4,7 +4,7 @@ Tie: hand-written model + correspondence (harness/c17_keyparser.cxx vs lean/Driv
 Oracle part 1 (harness/c17_keyparser.cxx): registry round trip (classes that need external data get small files written by the
 harness) / keyword matching / aliases in arbitrary spellings of alias AND target, incl. the aliases the library registers itself /
 vectorised keys of every type / per-segment lists of projection-data headers, on the implementation.
-Oracle part 2 (harness/c17_fuzz.cxx): KeyParser::parse, read_interfile_image, read_interfile_PDFS, MultipleDataSetHeader on
+Oracle part 2 (harness/c17_fuzz.cxx): KeyParser::parse, read_interfile_image, read_interfile_dynamic_image, read_interfile_PDFS, MultipleDataSetHeader on
 grammar-aware mutations of library-written headers and on the structured "exactly one size-bearing field inconsistent" family,
 under AddressSanitizer + UBSan, with the anchored STIR sources compiled *instrumented* into the harness.
 Part 2 is runtime evidence, not a theorem."""
@@ -151,6 +151,12 @@ def classify(stderr_text, how, target="unknown", text=b""):
         nmax = max(lits) if lits else 0
         if m and nmax >= 2**20 and int(m.group(1), 16) <= 256 * nmax:
             return "alloc:proportional-to-number-declared-in-header"
+    if kind == "timeout" and target == "dynimage":
+        # Known open class (see known_findings.txt), same root as the allocation class: read_interfile_dynamic_image builds one
+        # image + ExamInfo (with all N time frames) per declared time frame before it looks at the data file: work ~ N^2.
+        lits = [int(x) for x in re.findall(rb"\d+", text) if len(x) <= 10 and int(x) <= 2**31 - 1]
+        if lits and max(lits) >= 20000:
+            return "timeout:dynimage:work-grows-with-square-of-declared-number-of-time-frames"
     if func == "unknown-function":
         t = text[:-1] if text.endswith(b"\r") else text
         if t.endswith(b"\\") and kind in ("timeout", "asan-allocation-size-too-big", "asan-out-of-memory"):
@@ -158,6 +164,14 @@ def classify(stderr_text, how, target="unknown", text=b""):
             return "keyparser:continuation-backslash-at-eof"
         func = "target-" + target
     return "%s:%s" % (kind, func)
+
+
+def inconsistent_key(target, msg):
+    """stable key of an `inconsistent` verdict: the class name the harness gives in braces, else the text with numbers removed"""
+    m = re.match(r"\{([a-zA-Z0-9:_-]+)\}", msg.strip())
+    if m:
+        return "inconsistent:" + m.group(1)
+    return "inconsistent:%s:%s" % (target, re.sub(r"[^a-zA-Z]+", "-", re.sub(r"\d+", "N", msg)).strip("-")[:80])
 
 
 def report_tail(stderr_text):
@@ -200,7 +214,7 @@ def run_fuzz(chk, tier):
                 overflow_reports += 1
             if t[3] == "inconsistent":
                 msg = " ".join(t[4:]).split(" | ")[0].replace(" +signed-overflow", "")
-                key = "inconsistent:%s:%s" % (t[1], re.sub(r"[^a-zA-Z]+", "-", re.sub(r"\d+", "N", msg)).strip("-")[:80])
+                key = inconsistent_key(t[1], msg)
                 inp = l.split("input=")[-1].strip() if "input=" in l else None
                 inconsistent_by_key.setdefault(key, []).append((t[1], msg, inp))
         elif t[0] == "KILLED":
@@ -264,7 +278,7 @@ def replay_fuzz(chk, replay):
                                                             " ".join([l for l in r.stdout.splitlines() if l.startswith("VERDICT")][-1:])))
     if r.returncode == 3:
         msg = [l for l in r.stdout.splitlines() if l.startswith("VERDICT")][-1][8:]
-        key = "inconsistent:%s:%s" % (target, re.sub(r"[^a-zA-Z]+", "-", re.sub(r"\d+", "N", msg.split(" ", 1)[1])).strip("-")[:80])
+        key = inconsistent_key(target, msg.split(" ", 1)[1])
         chk.violation(key, "replay: " + msg, open(replay).read())
     elif r.returncode != 0:
         key = classify(r.stdout, "exit%d" % r.returncode, target, data)
@@ -329,12 +343,13 @@ def main(tier, replay):
         "(int, unsigned, unsigned long, float, double, string, list of ints, list of doubles) at index 0 / negative / in range / size+1 / beyond: stored at the index "
         "given and nothing else changed, or error; accepted projection-data header => number of segments = declared count = length of every list given; "
         "KeyParser round trip on random printable values. "
-        "Part 2 (fuzz_* keys): KeyParser::parse, read_interfile_image, read_interfile_PDFS (PET, SPECT, Siemens), MultipleDataSetHeader with the anchored sources "
+        "Part 2 (fuzz_* keys): KeyParser::parse, read_interfile_image, read_interfile_dynamic_image, read_interfile_PDFS (PET, SPECT, Siemens), MultipleDataSetHeader with the anchored sources "
         "compiled with -fsanitize=address,undefined: every seed header truncated at every line (with/without newline), every single line deleted, truncation at sampled bytes, "
         "seeded mutations (hostile values incl. huge/negative sizes, index changes, insertion of known keys, duplication, swap, keyword damage, over-long values), and the "
         "structured family 'exactly one size-bearing field inconsistent' (each per-segment list / 'matrix size [4]' / TOF bin count, order list and mashing factor / "
         "number of dimensions / image matrix sizes (list, empty, missing, larger than the data file) / image scaling factors / per-frame and per-energy-window keys beyond "
-        "the declared count / SPECT radii vs number of projections: must be rejected; consistent variants and the library's own headers: must be accepted); "
+        "the declared count / number of time frames of a dynamic image vs its per-frame keys and the data in the file / data offset of a frame beyond the file / "
+        "SPECT radii vs number of projections: must be rejected; consistent variants and the library's own headers: must be accepted); "
         "verdict per input: rejected / accepted and consistent with the data-file size and (for PET projection data and images, when an independent strict scan of the "
         "header text is unambiguous) with every size and list the header gives / inconsistent / killed (sanitizer report, crash, allocation > 256 MB, time-out).",
         extra=dict(registered_classes=classes, alias_sites=alias_sites,
